@@ -24,6 +24,7 @@ finding (documented 'no limit', actual 8 MiB). Confinement: no path from the RPC
 reaches Connection::close / Endpoint::close, and codec errors leave do_rpc / do_handle only through
 `?` (the RPC's own Result).
 One layer out: Config.max_frame_size is never rewritten after the Config was built and its accessor is a pure projection.
+The codec's limit is never read back for a second size check outside the codec.
 """
 TRUSTED = ["tokio-util enforces max_frame_len on both encode and decode (n > max ⇒ error)", "dropping anemo's SendStream wrapper resets the stream (C12)"]
 NOT_DECIDED = ["exact boundary inside tokio-util (> vs >=)", "header-vs-body accounting", "latency of the failure"]
@@ -185,6 +186,14 @@ def run(cx):
                     ob.require(okm, f"propagate/{fn.split('::')[-1]}/{st_}", f"{fn}: an error of {st_} does not end the exchange (neither `?` nor a match whose Err arm returns)", co.path)
                     continue
                 ob.require(len(brs) >= 1, f"propagate/{fn.split('::')[-1]}/{st_}", f"{fn}: result of {st_} is not propagated with `?`", co.path)
+
+    with cx.ob("C15.4b", "R-CALLERS", "the codec is the only place where sizes are compared with the limit: library code never reads the codec's limit back (max_frame_length getter) to run a size check of its own - a second check has its own boundary (`>=` vs `>`) and its own placement") as ob:
+        rd = [c for c in prog.all_calls(crates=["anemo"]) if not c.body.is_cleanup(c.bb) and c.fn and name_matches(c.fn, "tokio_util::codec::length_delimited::LengthDelimitedCodec::max_frame_length")]
+        for c in rd:
+            ob.fail("refuted", f"limit-read-back/{owner_path(prog, c.body)}", f"{c.body.path} reads the codec's max_frame_length (a size check outside the codec)", c.body.path, c.body.loc(c.bb))
+        st_ = [c for c in prog.all_calls(crates=["anemo"]) if not c.body.is_cleanup(c.bb) and c.fn and name_matches(c.fn, "tokio_util::codec::length_delimited::Builder::max_frame_length")]
+        ob.floor(st_, 1, "Builder::max_frame_length (positive control of the matcher)")
+        ob.count(len(st_))
 
     with cx.ob("C15.5", "R-CALLERS", "every header/body byte goes through the length-limited codec: raw stream reads/writes only for the 8-byte version preamble") as ob:
         n = 0
